@@ -39,6 +39,10 @@ type Case struct {
 	// PriorOld: before the request, the same process has carried out another request (PriorOld -> PriorOld+"Prior" on the
 	// same class) on a separate copy of the project; nothing of it may reach this request
 	PriorOld string `json:"priorOld"`
+	// ThereAndBack: before the request, the same process has renamed the SAME method of the SAME tree to a temporary
+	// name and back (two requests, each on a fresh analysis); the tree is then analysed again and the request under
+	// observation touches the very positions the two earlier requests edited
+	ThereAndBack bool `json:"thereAndBack"`
 }
 
 // a site the model attributes to the renamed method: its declaration(s) and the calls recorded against it
@@ -180,6 +184,25 @@ func one(raw json.RawMessage) interface{} {
 	if p0 {
 		rec.Panic, rec.Note = true, "analysis: "+msg
 		return rec
+	}
+	if c.ThereAndBack {
+		tmp := c.Req.Old + "Tmp9"
+		pt, msgt := lib.Guard(func() {
+			rename.RenameMethodApp(deps).Refactoring(fmt.Sprintf("%s.%s.%s -> %s.%s.%s", c.Req.Pkg, c.Req.Cls, c.Req.Old, c.Req.Pkg, c.Req.Cls, tmp))
+			ia := javaapp.NewJavaIdentifierApp()
+			id1 := ia.AnalysisPath(root)
+			fa := javaapp.NewJavaFullApp()
+			d1 := fa.AnalysisPath(root, id1)
+			rename.RenameMethodApp(d1).Refactoring(fmt.Sprintf("%s.%s.%s -> %s.%s.%s", c.Req.Pkg, c.Req.Cls, tmp, c.Req.Pkg, c.Req.Cls, c.Req.Old))
+			ia2 := javaapp.NewJavaIdentifierApp()
+			ident = ia2.AnalysisPath(root)
+			fa2 := javaapp.NewJavaFullApp()
+			deps = fa2.AnalysisPath(root, ident)
+		})
+		if pt {
+			rec.Panic, rec.Note = true, "earlier requests: "+msgt
+			return rec
+		}
 	}
 	rec.Model1 = canon(deps)
 	for i := range rec.Texts {
@@ -431,6 +454,7 @@ func gen(seed int64, n int, tier string) []interface{} {
 		}
 		c := Case{Case: fmt.Sprintf("rand-%d-%d", seed, k), Files: p.Files, Layout: p.Layout,
 			Req: Req{Pkg: tf.Pkg, Cls: tf.Unit.Name, Old: old, New: newName}, Crlf: r.Intn(6) == 0, NoFinal: r.Intn(6) == 0}
+		c.ThereAndBack = r.Intn(5) == 0
 		if r.Intn(4) == 0 { // an earlier request of the same process, on another method of the class
 			for _, m := range tf.Unit.Members {
 				if m.Kind == "method" && m.Name != old {
